@@ -25,7 +25,9 @@ def shapes(p, rng, quick):
         S.append(["cell_to_lonlat", "%016x" % c])
         S.append(["cell_to_boundary", "%016x" % c, o])
     if quick:
-        S.append(["cell_to_lonlat", "%016x" % a5.lonlat_to_cell((-93.0, 31.7), 1)])      # a resolution-1 cell (the triangle-shaped level)
+        c1 = a5.lonlat_to_cell((-93.0, 31.7), 1)                        # a resolution-1 cell (the triangle-shaped level)
+        S.append(["cell_to_lonlat", "%016x" % c1])
+        S.append(["cell_to_boundary", "%016x" % c1, {"segments": 2}])
     c = a5.lonlat_to_cell((5.0, 5.0), 7)
     S.append(["uncompact", ["%016x" % c, "%016x" % ser.cell_to_parent(c)], 8])
     S.append(["cell_to_children", "%016x" % c, 9])
